@@ -228,19 +228,20 @@ def emit(P, kind, rng, level=6, rename='all', link=None, drop_debug=False, eh_no
             if s.name == '.eh_frame':
                 s.type, s.size, s.data = 8, len(s.data), b''
     if not drop_debug:
+        dtype = 0x7000001e if P['machine'] == 8 else 1
         for name, data in P['debug'].items():
             if kind == 'plain':
-                secs.append(elfgen.Sec(name, 1, data=data))
+                secs.append(elfgen.Sec(name, dtype, data=data))
             elif kind == 'gabi':
                 comp = zlib.compress(data, level)
-                secs.append(elfgen.Sec(name, 1, flags=0x800, data=chdr(P['cls'], P['le'], len(data), rng.choice([1, 4, 8])) + comp,
+                secs.append(elfgen.Sec(name, dtype, flags=0x800, data=chdr(P['cls'], P['le'], len(data), rng.choice([1, 4, 8])) + comp,
                                        align=rng.choice([1, 8])))
             else:
                 framed = b'ZLIB' + struct.pack('>Q', len(data)) + zlib.compress(data, level)
                 if rename == 'all' or len(framed) < len(data) or name == '.debug_info':
-                    secs.append(elfgen.Sec('.z' + name[1:], 1, data=framed))
+                    secs.append(elfgen.Sec('.z' + name[1:], dtype, data=framed))
                 else:
-                    secs.append(elfgen.Sec(name, 1, data=data))       # binutils leaves a section that would not shrink alone
+                    secs.append(elfgen.Sec(name, dtype, data=data))       # binutils leaves a section that would not shrink alone
     if link:
         secs.append(link() if callable(link) else link)
     rng.shuffle(secs)
@@ -375,6 +376,8 @@ def synth_payload(rng):
         sec, items, _ = cfigen.gen_section(rng, le, asz, False)
         debug['.debug_frame'] = sec
     P = dict(cls=cls, le=le, machine=62 if (le and cls == 64) else 3 if (le and cls == 32) else 21 if cls == 64 else 20, debug=debug, etype=3)
+    if rng.random() < 0.15:
+        P['machine'] = 8        # MIPS: the assembler gives debug sections the type SHT_MIPS_DWARF, compressed or not
     if rng.random() < 0.6:
         sec, items, addr = cfigen.gen_section(rng, le, asz, True)
         P['eh_frame'], P['eh_addr'] = sec, addr
@@ -668,7 +671,7 @@ def run_reject(idx, rng, sh):
         sh.skip('section too small to mis-declare')
         return
     if mode.startswith('gabi'):
-        decl = {'gabi-smaller': len(data) - rng.choice([1, len(data) // 2]), 'gabi-larger': len(data) + rng.choice([1, 50])}.get(mode, len(data))
+        decl = {'gabi-smaller': len(data) - rng.choice([1, len(data) // 2, len(data)]), 'gabi-larger': len(data) + rng.choice([1, 50])}.get(mode, len(data))
         secs.append(elfgen.Sec(name, 1, flags=0x800, data=chdr(P['cls'], P['le'], decl, 1, 1 if mode != 'gabi-type' else rng.choice([2, 5, 0x70000000])) + zlib.compress(data)))
         exc = ELFCompressionError
     else:
